@@ -574,7 +574,7 @@ PROPS = {
         assumptions=['whether a timer fires during or between calls in a real run is a scheduling fact: the harness arranges it with sleeps', 'a zero-length read buffer is outside the property (the real Read spins): the model states 0 < size'],
         level_text='Theorems: the adapter\'s Reads return exactly the concatenation of the messages (any write sizes incl. empty, any positive read sizes), every data result non-empty; 1000/1001 read as sticky io.EOF; other close '
                    'codes pass through; wrong type fails and closes with 1003; a deadline firing while idle sets a flag that fails later calls until reset and leaves the connection untouched; firing during a call cancels the side\'s context.',
-        level_note='deadline theorems are about the flag/tryLock state machine; the effect of the cancelled context is C10.',
+        level_note='stream, EOF (both directions: normal / going-away close => io.EOF, and io.EOF ONLY then — C18_eof_only_after_normal_close, C18_fail_never_eof over any sequence of reads), type check and deadline theorems; the deadline theorems are about the flag/tryLock state machine, the effect of the cancelled context is C10.',
         technique='Coq proofs (induction over read sizes with a fuel measure) + differential runs through NetConn on real connection pairs',
     ),
     'C19': dict(
